@@ -84,7 +84,11 @@ Send(st, mode, r, inr, lt, i) ==
     IF i.op = "M"
     THEN IF mode = "nrt"
          THEN [st EXCEPT !.sends = Append(st.sends, [time |-> base, seq |-> Len(st.sends), tag |-> i.s, subk |-> "-", sub |-> 0])]
-         ELSE [st EXCEPT !.out = Append(st.out, Bndl(r, i.s, "m", 0, "-", 0))]
+         \* a plain message has no timetag of its own, but a bundle nested in it as an argument (a completion
+         \* message) is stamped like any nested bundle: logical time + its latency
+         ELSE [st EXCEPT !.out = Append(st.out, Bndl(r, i.s, "m", 0,
+                                                      IF i.nk = 0 THEN "-" ELSE IF subimm THEN "i" ELSE "t",
+                                                      IF i.nk = 0 \/ subimm THEN 0 ELSE lt + i.na))]
     ELSE IF refuse THEN [st EXCEPT !.out = Append(st.out, Refused(r, i.s))]
     ELSE IF mode = "nrt"
          THEN [st EXCEPT !.sends = Append(st.sends,
